@@ -15,7 +15,7 @@ LEVEL_TEXT = ("Bounded verification by symbolic execution of the real typing cod
               "candidate accepts.  Bounded claim.")
 LEVEL_NOTE = ("Bounds: n = F+1 quick / [F, F+2] thorough; unique generic occurrence at canonical position (rotations: C02); every signature-derived kit "
               "class; 6 user signatures (quick) / 8 user signatures x 3 enzymes (thorough). Letters over ACGT. Trusted: z3, CPython, symx models.")
-LEVEL_NOTE_EXTRA = "user parts over cutters with ambiguity codes in the site (AspBHI 5', TsoI 3'); characterize() on abstract and on concrete bases with narrower subtypes."
+LEVEL_NOTE_EXTRA = "user parts over cutters with ambiguity codes in the site (AspBHI 5', TsoI 3'); characterize() on abstract and on concrete bases with narrower subtypes. Also: characterize with the plasmid filed at every origin; a leaf type nobody used before; a family that gains a member after its first use."
 TECHNIQUE = "bounded symbolic execution of the real Python source (symx) with z3; differential obligation part class vs generic class + IUPAC oracle; replay on the real stack"
 EXPLANATION = ("the derived part pattern and the generic pattern are both executed on the same symbolic record; agreement is an "
                "assertion over all records in the bound")
